@@ -612,17 +612,21 @@ func runJobctlScenarios(c *Ctx) {
 		c.Nontrivial()
 	})
 
-	// F31 (known finding).  C09: "every task the Job ever created stays listed in its status".
+	// F31 (REPAIRED; regression replay — fails on the tree before the repair).  C09: "every task the
+	// Job ever created stays listed in its status".
 	// Parallel Job over two indexes; the task name of index 1 is taken by a foreign pod.  Pass 1 creates
 	// the pod of index 0; index 1 answers AlreadyExists, the admission-error annotation is set in
 	// memory; handleKillJob runs in the same pass (shouldKillJob: the annotation) and deletes the pod
 	// of index 0 — no kubelet has acknowledged it, so the API server removes it at once; Update
-	// (annotation) succeeds; UpdateStatus is sent with the SAME resourceVersion the pass read, which
-	// Update has just made stale: Conflict, with no fault injected (SyncOne discards what Update
-	// returned; whenever a pass changes both metadata and status the status write conflicts).  The
-	// later passes see status.tasks == [] and no pod: Finished/AdmissionError with 0 tasks — a task
-	// was created, deleted and never listed.  (f11 is the same history with the deleted pod lingering:
-	// it is then adopted from the pod cache by the next pass.)
+	// (annotation) succeeds.  Before the repair UpdateStatus was sent with the SAME resourceVersion the
+	// pass had read, which Update had just made stale: Conflict, with no fault injected (SyncOne
+	// discarded what Update returned; whenever a pass changed both metadata and status the status
+	// write conflicted); the later passes saw status.tasks == [] and no pod: Finished/AdmissionError
+	// with 0 tasks — a task was created, deleted and never listed.  Now
+	// (ExecutionControl.UpdateJobAndStatus) the status write is submitted on top of the object Update
+	// returned: ok, and the task is listed with its Killed marker from pass 1 on
+	// (Lean: C09Side.created_task_listed_regression, C09Hist.created_stays_listed).  (f11 is the same
+	// history with the deleted pod lingering.)
 	c.RunScenario("f31-created-task-deleted-and-never-listed", func() {
 		w := newJobctlSc(c, func(j *execution.Job) { j.Spec.Template.Parallelism = &execution.ParallelismSpec{WithCount: i64p(2)} })
 		w.keepMonitors = true
@@ -630,13 +634,17 @@ func runJobctlScenarios(c *Ctx) {
 		if len(w.indexHashes) != 2 {
 			return
 		}
+		name := "job-" + w.indexHashes[0] + "-0"
 		w.addForeign("job-" + w.indexHashes[1] + "-0")
 		w.flush()
-		w.work() // create index 0: ok; create index 1: exists; delete index 0; Update ok; UpdateStatus conflict
-		created, conflict := 0, false
+		w.work() // create index 0: ok; create index 1: exists; delete index 0; Update ok; UpdateStatus ok (was: conflict)
+		created, both, conflict := 0, 0, false
 		for _, cl := range w.api.Calls {
 			if cl.Verb == "create" && cl.Resource == "pods" && cl.Result == "ok" {
 				created++
+			}
+			if cl.Verb == "update" && cl.Resource == "jobs" && cl.Result == "ok" {
+				both++
 			}
 			if cl.Verb == "update" && cl.Subresource == "status" && cl.Result == "conflict" {
 				conflict = true
@@ -648,12 +656,32 @@ func runJobctlScenarios(c *Ctx) {
 		if conflict {
 			c.Count("jc.observed.status-write-conflicts-with-own-update")
 		}
+		listedKilled := func() bool {
+			j := w.apiJob()
+			if j == nil {
+				return false
+			}
+			for _, r := range j.Status.Tasks {
+				if r.Name == name && r.DeletedStatus != nil && r.DeletedStatus.Result == execution.TaskKilled {
+					return true
+				}
+			}
+			return false
+		}
+		// the regression proper: no fault was injected, so the pass that wrote the annotation also wrote
+		// its status — the task it created and swept is listed right away
+		if both != 2 || conflict || !listedKilled() {
+			c.Violate("C09", "scenario-f31-regression", "pass 1 (no fault injected) created and deleted %s and wrote the admission-error annotation, but its status write did not go through (%d job writes ok, conflict=%v): the task is not listed with its Killed marker", name, both, conflict)
+		}
 		w.flush()
 		for i := 0; i < 4; i++ {
 			w.work()
 			w.flush()
 		}
 		w.settle(2)
+		if !listedKilled() {
+			c.Violate("C09", "scenario-f31-regression", "at quiescence the task %s, created and deleted by the controller, is not listed with its Killed marker", name)
+		}
 		w.finalMonitors() // (before the TTL timer of the finished Job is run out: the Job is judged while it exists)
 		c.Nontrivial()
 	})
